@@ -29,12 +29,15 @@ def isnan(v):
     return v is None or (isinstance(v, float) and math.isnan(v))
 
 
-def fit_partition(case, X, y, vals_rank, ids):
+def fit_partition(case, X, y, vals_rank, ids, Xd=None, yd=None):
     """fit the carver of `case` on (X, y); returns (kept?, partition of ids) or ('raise', type)"""
     kw = space.carver_kwargs(case, vals_rank)
     try:
         carver = space.carver_class(case["carver"])(**kw)
-        carver.fit(X, y)
+        if Xd is not None:
+            carver.fit(X, y, X_dev=Xd, y_dev=yd)
+        else:
+            carver.fit(X, y)
         if "f" not in carver.features:
             return ("dropped", None)
         out = carver.transform(X)["f"].tolist()
@@ -62,12 +65,12 @@ def row_generators(n, tier):
 
 
 def run_case(case):
-    X, y, _, _, vals = space.build_frames(case)
+    X, y, Xd, yd, vals = space.build_frames(case)
     n = len(X)
     ids = list(range(n))
     res = {"violations": [], "sample": dict(case), "evaluations": 0}
     viol = res["violations"]
-    base = fit_partition(case, X, y, vals, ids)
+    base = fit_partition(case, X, y, vals, ids, Xd, yd)
     if base[0] not in ("kept", "dropped"):
         res["outcome"] = "base-" + base[0]
         return res
@@ -101,7 +104,11 @@ def run_case(case):
             back = (X2["f"] - b) / a
             if not all((isnan(u) and isnan(v)) or u == v for u, v in zip(back.tolist(), X["f"].tolist())):
                 raise RuntimeError("affine map is not exact on this data")
-            variants.append((f"affine{a},{b}", X2, y, vals, ids, False))
+            Xd2 = None
+            if Xd is not None:
+                Xd2 = Xd.copy()
+                Xd2["f"] = Xd2["f"] * a + b
+            variants.append((f"affine{a},{b}", X2, y, vals, ids, False, Xd2))
     else:
         tie = rate_ties(case)
         maps = list(RENAMES) + ([SCRAMBLE] if case["kind"] == "ORD" else [])
@@ -115,8 +122,10 @@ def run_case(case):
             # their names (also relative to the missing-value sentinel) -> DONT_CARE under renaming when rates tie
             variants.append((f"rename{mi}", X2, y, v2, ids, tie and (mp is SCRAMBLE or case["kind"] == "CAT")))
     distinct = 0
-    for name, X2, y2, v2, p, dont_care in variants:
-        got = fit_partition(case, X2, y2, v2, p)
+    if Xd is not None:  # dev-sample states: the dev sample is re-encoded with the train sample (affine maps); row generators are reduced
+        variants = [v for v in variants if v[0].startswith(("affine", "reverse", "index-strings", "sort-by-y"))]
+    for name, X2, y2, v2, p, dont_care, *rest in variants:
+        got = fit_partition(case, X2, y2, v2, p, rest[0] if rest and rest[0] is not None else Xd, yd)
         res["evaluations"] += 1
         if got[0] != base[0] or got[1] != base[1]:
             if dont_care:
@@ -222,6 +231,18 @@ def enumerate_cases(tier, seed):
     for cells in sparse:
         for nan in (None, (2, 2)):
             cases.append({"carver": "binary", "kind": "QNT", "cells": [list(c) for c in cells], "nan": list(nan) if nan else None, "dev": None, "cfg": {"sort_by": "cramerv", "max_n_mod": 5, "min_freq": 0.1, "min_freq_mod": None, "output_dtype": "float", "dropna": True}, "seed": seed, "tier": tier})
+    # dev samples (rates tied or ranked differently on dev) x cut points whose labels sort differently as strings once
+    # the feature is rescaled (1, 9, 20, 30 -> 2, 18, 40, 60)
+    full = carving_space.alphabet("binary", "quick")
+    tabs, tr = carving_space.tables("binary", "QNT", tier, kmax=4, alpha=full[:4])
+    tabs = [t for t in tabs if len(t) == 4]
+    transitions += tr
+    for cells in tabs[:: 3 if tier == "quick" else 1]:
+        for name, dcells in carving_space.dev_variants("binary", list(cells), full[:4], 1 if tier == "quick" else 2):
+            if not carving_space.valid_target("binary", dcells):
+                continue
+            dev = {"cells": [list(x) for x in dcells], "nan": None, "name": name}
+            cases.append({"carver": "binary", "kind": "QNT", "cells": [list(c) for c in cells], "nan": None, "dev": dev, "cfg": {"sort_by": "tschuprowt", "max_n_mod": 4, "min_freq": 0.05, "min_freq_mod": None, "output_dtype": "float", "dropna": True}, "seed": seed, "tier": tier, "values": [1.0, 9.0, 20.0, 30.0]})
     # continuous targets in tenths: groups whose means are mathematically equal but are summed in different orders
     dec = [(1, 2, 3), (3, 1, 2), (2, 2, 2), (0, 1), (4, 5)]
     tabs, tr = space.construct(dec, 2, 3, ordered=True)
